@@ -19,6 +19,13 @@ let op_is_regular e =
   | NRefused -> L [ A "none" ]
   | NPanic -> L [ A "panic" ]
 let op_mu_branches e =
+  (* the implementation side calls p.mu() and p.tau_star() before it looks at the branches: both share
+     tau*'s global variable counter, which overflows on a variable V18446744073709551615 (finding F11):
+     MuFull.mu_full / TauStar.tau_star = None is that panic (audit 2, B16 / T13: Mu.mu_branches alone has
+     no counter) *)
+  match M.MuFull.mu_full (program e), M.TauStar.tau_star (program e) with
+  | None, _ | _, None -> L [ A "panic" ]
+  | Some _, Some _ ->
   match M.Mu.mu_branches (program e) with
   | NOk bs ->
     L [ A "mu"; L [ A "consistent"; of_boolv true ];
